@@ -22,6 +22,7 @@ import (
 	"testing/synctest"
 	"time"
 
+	"github.com/hydraide/hydraide/app/name"
 	hydrapb "github.com/hydraide/hydraide/sdk/go/hydraidego/v3/hydraidepbgo"
 
 	"verifharness/rig"
@@ -146,6 +147,19 @@ func apply(r *rig.Rig, cs caseSpec, st step, cr *caseResult) {
 	case "del":
 		_, _ = r.GW.Delete(ctx, wire(&hydrapb.DeleteRequest{Swamps: []*hydrapb.DeleteRequest_SwampKeys{{IslandID: isl, SwampName: sw, Keys: st.Keys}}}))
 		cr.seen("rpcs", "Delete")
+	case "flush":
+		// explicit flush of the write queue (what GracefulStop's fallback and embedders call); not a gateway RPC
+		cr.Requests--
+		h := r.Zeus.GetHydra()
+		n := name.Load(sw)
+		if ok, err := h.IsExistSwamp(isl, n); err == nil && ok {
+			if so, err := h.SummonSwamp(ctx, isl, n); err == nil {
+				so.BeginVigil()
+				so.WriteTreasuresToFilesystem()
+				so.CeaseVigil()
+				cr.seen("notes", "explicit-flush")
+			}
+		}
 	case "sleep":
 		cr.Requests--
 		time.Sleep(time.Duration(st.Ms) * time.Millisecond)
@@ -409,7 +423,7 @@ func runCase(t *testing.T, cs caseSpec) (cr caseResult) {
 func TestCheck(t *testing.T) {
 	c := rig.NewCheck(t, "C05", "exploration")
 	defer c.Finish()
-	c.Rule = "a case = one request history (Set of every value kind incl. zero-like/extreme values with metadata set/unset, Increment*, PatchTreasures, Uint32SlicePush/Delete, Delete, pauses incl. mid-history evictions) on a persistent swamp in a synctest bubble (short histories of 1-15 requests; plus long histories of 100-400 writes over 3-10 keys spread over many write ticks that push the storage file across its inline-compaction trigger, some sized to cross it in the last batch before the close; plus histories whose last change to a key alters only a chosen subset of the five metadata fields, value identical, via Set / Increment SetIfExist+SetIfNotExist / PatchTreasures Meta, on flushed and on reloaded records), x write mode (interval 1s / immediate) x close kind (idle eviction / graceful stop + new engine on the same root); Get, GetByKeys, GetAll, GetByIndex (15 index types x 2 orders), Count, IsKeyExist, Uint32SliceSize are recorded before the close and after the reload and compared key by key; non-trivial = at least one key existed in observation A and the close was confirmed (active swamps == 0); distinct = distinct case JSON"
+	c.Rule = "a case = one request history (Set of every value kind incl. zero-like/extreme values with metadata set/unset, Increment*, PatchTreasures, Uint32SlicePush/Delete, Delete, pauses incl. mid-history evictions) on a persistent swamp in a synctest bubble (short histories of 1-15 requests; plus long histories of 100-400 writes over 3-10 keys spread over many write ticks that push the storage file across its inline-compaction trigger, some sized to cross it in the last batch before the close; plus histories whose last change to a key alters only a chosen subset of the five metadata fields, value identical, via Set / Increment SetIfExist+SetIfNotExist / PatchTreasures Meta, on flushed and on reloaded records; plus histories whose last change to a key is a value change of identical encoded size (PatchTreasures ops without Meta, Set, Increment*) on a record already written by immediate mode / a write tick / an explicit flush / an eviction), x write mode (interval 1s / immediate) x close kind (idle eviction / graceful stop + new engine on the same root); Get, GetByKeys, GetAll, GetByIndex (15 index types x 2 orders), Count, IsKeyExist, Uint32SliceSize are recorded before the close and after the reload and compared key by key; non-trivial = at least one key existed in observation A and the close was confirmed (active swamps == 0); distinct = distinct case JSON"
 	c.Assumptions = []string{
 		"values are compared with proto.Equal after a protobuf wire round-trip of every response: NaN equals NaN and -0.0 equals +0.0 (weaker reading of 'same value'); a sign or NaN-payload change would not be reported",
 		"a swamp that does not exist is read as 'no key exists, count 0'; existence of the swamp as a container is not compared (the statement speaks about keys)",
@@ -421,6 +435,7 @@ func TestCheck(t *testing.T) {
 	}
 	n := c.N(150, 3000)
 	cases := append(matrixCases(), metaOnlyCases()...)
+	cases = append(cases, sameSizeCases()...)
 	nExact, nLong := c.N(24, 240), c.N(16, 360)
 	for i := 0; i < nExact; i++ {
 		cases = append(cases, genLongExact(c.Rand(1_000_000+i), i))
